@@ -21,7 +21,7 @@ NSHARDS = {"quick": 64, "thorough": 128}
 BUDGET_S = {"quick": 240, "thorough": 2400}
 EXTRA_BUILDS = {"thorough": ["rel", "asan"]}
 MIN_HITS = {
-    'quick': {"program": 71062, "allbytes": 1280, "random_tokens": 1920, "constructed": 810, "tx_bound": 448, "lib_err": 11778, "lib_ok": 58504, "post_error_state_checked": 11778, "step_vs_run": 70282},
+    'quick': {"program": 140284, "allbytes": 1280, "random_tokens": 1920, "constructed": 810, "tx_bound": 448, "lib_err": 23346, "lib_ok": 116158, "post_error_state_checked": 23346, "step_vs_run": 139504},
     'thorough': {"program": 1078522, "allbytes": 1536, "random_tokens": 614400, "constructed": 153624, "tx_bound": 76800, "lib_err": 694087, "lib_ok": 314920, "step_vs_run": 1009008},
 }
 HOSTILE = [b"", b"\x00", b"\x80", b"\x01", b"\x81", b"\x02", b"\x7f", b"\xff", b"\xff\xff\xff\x7f", b"\xff\xff\xff\xff", b"\x00\x00\x00\x80\x00", b"\xff" * 9, b"\x01\x00\x00\x00\x00\x00", bytes(33), b"\x02" + bytes(32), bytes(71), b"\x30\x06\x02\x01\x01\x02\x01\x01\x41"]
@@ -113,6 +113,9 @@ def cases(ctx):
     # (d) constructed scripts
     for _ in range(2000 if t else 25):
         yield {"k": "bits", "bits": rnd_bits(r, r.choice([1, 2, 4, 8, 16])), "tag": "constructed"}
+    if S % 16 == 1:
+        # stacks of more than 100 MB: a 50-byte element doubled 22 times, then an operation that must fail (so that the post-error state is observed)
+        yield {"k": "script", "hex": (bytes([50]) + bytes(range(50)) + b"\x76\x7e" * 22 + b"\x6b\x6c\x6c").hex(), "tag": "huge_stack", "compact": True}
     if S % 16 == 0:
         yield {"k": "bits", "bits": [{"push": "ab" * 100000}, {"op": 118}, {"op": 126}, {"op": 130}], "tag": "constructed"}
         yield {"k": "bits", "bits": [{"if": 99, "pass": [], "fail": None}], "tag": "constructed"}
@@ -152,6 +155,9 @@ def request_of(case):
         except wire.ScriptTrunc as e:
             nb = len(e.tokens) + 1
         req = {"op": "interp", "script": case["hex"], "max_steps": nb + 1, "mode": "both"}
+        if case.get("compact"):
+            req["compact"] = True
+            req["guard"] = 16 << 30
     elif k == "bits":
         nb = count_bits(case["bits"])
         req = {"op": "interp", "bits": case["bits"], "max_steps": nb + 1, "mode": "both"}
@@ -164,7 +170,7 @@ def request_of(case):
 def judge(ctx, case, build=None):
     req, nb = request_of(case)
     build = build or ctx.build
-    r = ctx.call(req, build=build)
+    r = ctx.call(req, build=build, watchdog=900 if case.get("compact") else None)
     assess(ctx, case, nb, r, build)
 
 
